@@ -263,7 +263,7 @@ func c20TransportChild(args []string) int {
 					addr = "udp://" + s.Addr["udp"]
 				}
 			case "udp-notcp": // nothing listens on the TCP side: the retry of a truncated reply is refused
-				err = s.ListenUDP("127.0.0.1:0")
+				err = s.ListenUDPRefuseTCP()
 				addr = "udp://" + s.Addr["udp"]
 			case "tcp", "tcp+pipeline":
 				err = s.ListenTCP("127.0.0.1:0")
